@@ -26,11 +26,13 @@ def _angs(rng, unit, n=3):
 
 
 def nonparallel_pair(rng):
-    """o, a with lengths in [1e-3, 1e6] and sin(angle between) >= 4e-7 (mostly >= 1e-3)"""
+    """o, a with lengths in [1e-3, 1e6], not parallel: angle between them mostly >= 1e-3, one in twenty 1e-12 .. 2e-6 rad"""
     a = gen.axis(rng)
     for _ in range(100):
         r_ = rng.random()
         phi = gen.logu(rng, 2e-3, math.pi / 2) if r_ < 0.45 else gen.logu(rng, 2e-6, 2e-3) if r_ < 0.55 else rng.uniform(2e-3, math.pi - 2e-3)
+        if r_ >= 0.95:       # nearly parallel but not parallel: the frame is badly determined, it must still be a frame
+            phi = gen.logu(rng, 1e-12, 2e-6)
         # rotate unit(a) by phi about a perpendicular direction
         ua = a / np.linalg.norm(a)
         p = np.cross(ua, gen.unit_axis(rng))
@@ -43,7 +45,7 @@ def nonparallel_pair(rng):
             a = ua * 1e-3 * (1 + rng.random())
             o = (math.cos(phi) * ua + math.sin(phi) * p) * 1e-3 * (1 + rng.random())
         s = np.linalg.norm(np.cross(o, a)) / (np.linalg.norm(o) * np.linalg.norm(a))
-        if s >= 4e-7:
+        if s >= (4e-7 if r_ < 0.95 else 3e-13):
             return o, a
     raise RuntimeError
 
